@@ -334,6 +334,8 @@ def features(chain, depth=0, in_unit=False, out=None, state=None):
                     out.add('node_mult_after_bond_in_mult_unit')
             if b.get('force_mult'):
                 out.add('mult_one')
+                if any(x['branches'] for x in b['chain']):
+                    out.add('nested_branch_in_mult_unit')
             st = {'closed': 0} if depth == 0 else state
             if depth >= 1 and (b['mult'] > 1 or b.get('force_mult')) and st['closed'] > 0:
                 out.add('nested_mult_after_nested_branch')
